@@ -464,3 +464,66 @@ def color_graph_enumeration(nmax):
                 if len(fails) > 5:
                     return n_eval, fails
     return n_eval, fails
+
+
+# ---------------------------------------------------------------------------------------------------------
+# bounded harness of _defineMarkClass on real feaLib objects (the contract has no Runtime: its clauses compare object identities across old())
+
+
+def define_mark_class_enumeration():
+    """every registry over classes {MC_top, MC_top_1} x glyphs {acutecomb, gravecomb} x anchors {(10,20),(1,1)} (each glyph absent or present),
+    every call (glyph, anchor): None iff the same anchor is already defined; otherwise a definition at the own anchor, in MC_top unless the glyph
+    is already there with another anchor, in which case in a class whose name was not registered; no registered class or definition is replaced."""
+    from fontTools.feaLib import ast as fea
+
+    from ufo2ft.featureWriters import MarkFeatureWriter
+
+    anchors = [(10, 20), (1, 1)]
+    glyphs = ["acutecomb", "gravecomb"]
+    opts = [None] + anchors  # per (class, glyph): absent or defined at that anchor
+    n, fails = 0, []
+    for layout in itertools.product(opts, repeat=4):
+        for has_second in (False, True):
+            for glyph in glyphs:
+                for (x, y) in anchors:
+                    reg = {}
+                    spec = {"MC_top": dict(zip(glyphs, layout[:2]))}
+                    if has_second:
+                        spec["MC_top_1"] = dict(zip(glyphs, layout[2:]))
+                    elif any(v is not None for v in layout[2:]):
+                        continue
+                    for cn, defs in spec.items():
+                        if cn == "MC_top" and all(v is None for v in defs.values()) and has_second is False and layout[0] is None:
+                            pass
+                        mc = fea.MarkClass(cn)
+                        for g, a in defs.items():
+                            if a is not None:
+                                mc.addDefinition(fea.MarkClassDefinition(mc, fea.Anchor(x=a[0], y=a[1]), fea.GlyphName(g)))
+                        reg[cn] = mc
+                    before = {cn: (mc, dict(mc.glyphs), {g: (d.anchor.x, d.anchor.y) for g, d in mc.glyphs.items()}) for cn, mc in reg.items()}
+                    n += 1
+                    w = MarkFeatureWriter()
+                    r = w._defineMarkClass(glyph, x, y, "MC_top", reg)
+                    old = spec["MC_top"].get(glyph)
+                    why = None
+                    if (r is None) != (old == (x, y)):
+                        why = "None iff same anchor already defined"
+                    for cn, (mc, defs, coords) in before.items():
+                        if reg.get(cn) is not mc:
+                            why = f"class {cn} replaced"
+                        for g, d in defs.items():
+                            if mc.glyphs.get(g) is not d or (d.anchor.x, d.anchor.y) != coords[g]:
+                                why = f"definition of {g} in {cn} overwritten"
+                    if r is not None:
+                        cn = r.markClass.name
+                        if reg.get(cn) is not r.markClass or r.markClass.glyphs.get(glyph) is not r or (r.anchor.x, r.anchor.y) != (x, y):
+                            why = "new definition not registered at its own anchor"
+                        if old is None and cn != "MC_top":
+                            why = "no conflict but another class used"
+                        if old is not None and cn in before:
+                            why = "conflict but an existing class was reused"
+                    if why:
+                        fails.append({"registry": spec, "call": [glyph, x, y], "clause": why})
+                        if len(fails) > 5:
+                            return n, fails
+    return n, fails
